@@ -190,6 +190,21 @@ def crawl(cfg, form, full, ctx=None, max_requests=400):
             if e["target"] and e["target"][0] == "local":
                 types[e["target"][1]] = e["type"]
         for e in entries:
+            if fam in ("gopher", "gplus") and e["kind"] == "link" and e["target"] and e["target"][0] == "url":
+                # a URL: item is an item of this server for a Gopher client (it is answered with a redirect page)
+                key = b"URL:" + e["target"][1]
+                if key in seen:
+                    continue
+                seen.add(key)
+                r2 = drive.serve(cfg, clients.follow(form, e), tls=tls, realfd=full)
+                nreq += 1
+                p2 = clients.parse_response(form, r2.response, expect_menu=False)
+                if ctx is not None:
+                    ctx.count("url_links_followed")
+                if r2.escaped is not None or not p2.ok or p2.problems:
+                    fails.append(Fail("dead-url-link:%s" % fam, "%s: listing of %r advertises the URL link %r but asking this server for it fails: %r" % (
+                        form, sel, e["target"][1], (p2.errmsg or r2.response[:100])), {"logs": r2.logs[-2:]}))
+                continue
             if e["kind"] != "link" or not e["target"] or e["target"][0] != "local":
                 continue
             tsel = e["target"][1]
